@@ -130,6 +130,7 @@ type Machine struct {
 	timers    []*chanV
 	ptrIDs    map[*value]int
 	inInit    int
+	randDraws int
 	siteFn    string
 	resetEvery int
 	needFP    bool
@@ -678,6 +679,7 @@ func (m *Machine) resetPath() {
 	m.timers = nil
 	m.ptrIDs = map[*value]int{}
 	m.inInit = 0
+	m.randDraws = 0
 	m.mapOrderNondet = false
 	m.opts = m.baseOpts
 }
